@@ -21,6 +21,14 @@ pub fn shared_feature_schemas() -> Vec<String> {
     "r = m<int, tstr>\nm<t, u> = {a: t, ? b: u}",
     "r = [g<int>, g<tstr>]\ng<t> = (t, t)",
     "r = {kv<\"a\", int>, ? kv<\"b\", tstr>}\nkv<k, v> = (k => v)",
+    // two instantiations of one generic group over types without a numeric reading (the int/float
+    // tolerance below cannot absorb a difference)
+    "r = [g<tstr>, g<bool>]\ng<t> = (t, t)",
+    "r = [g<bool>, g<tstr>]\ng<t> = (t, t)",
+    "r = [* g<tstr>, g<bool>]\ng<t> = (t, t)",
+    "r = [g<tstr>, ? g<bool>, g<nil>]\ng<t> = (t, ? t)",
+    "r = [m<tstr>, m<bool>]\nm<t> = [t, t]",
+    "r = [g<tstr>, [g<bool>]]\ng<t> = (t, t)",
     "r = w<w<int>>\nw<t> = [t]",
     "r = o<int>\no<t> = t / nil",
     // sockets / plugs
@@ -159,6 +167,14 @@ pub fn extra_docs() -> Vec<RV> {
     RV::Float(1e300),
     RV::Float(3.0),
     RV::Array(vec![t("a"), t("b")]),
+    RV::Array(vec![t("a"), t("b"), RV::Simple(21), RV::Simple(20)]),
+    RV::Array(vec![RV::Simple(21), RV::Simple(20), t("a"), t("b")]),
+    RV::Array(vec![t("a"), t("b"), t("c"), t("d")]),
+    RV::Array(vec![RV::Simple(21), RV::Simple(21), RV::Simple(20), RV::Simple(20)]),
+    RV::Array(vec![t("a"), t("b"), RV::Simple(22), RV::Simple(22)]),
+    RV::Array(vec![t("a"), RV::Simple(21), RV::Simple(22)]),
+    RV::Array(vec![RV::Array(vec![t("a"), t("b")]), RV::Array(vec![RV::Simple(21), RV::Simple(20)])]),
+    RV::Array(vec![t("a"), t("b"), RV::Array(vec![RV::Simple(21), RV::Simple(20)])]),
     RV::Array(vec![i(1), t("a"), t("b")]),
     RV::Array(vec![i(1), i(2), t("a"), t("b")]),
     RV::Array(vec![RV::Array(vec![RV::Array(vec![i(1)])])]),
